@@ -848,7 +848,7 @@ private:
           {
             transit_event.logger_base->backtrace_storage->process(
               [this](TransitEvent const& te, std::string_view thread_id, std::string_view thread_name)
-              { _dispatch_transit_event_to_sinks(te, thread_id, thread_name); });
+              { _dispatch_backtrace_transit_event_to_sinks(te, thread_id, thread_name); });
           }
         }
       }
@@ -892,7 +892,7 @@ private:
         // process all records in backtrace for this logger and log them
         transit_event.logger_base->backtrace_storage->process(
           [this](TransitEvent const& te, std::string_view thread_id, std::string_view thread_name)
-          { _dispatch_transit_event_to_sinks(te, thread_id, thread_name); });
+          { _dispatch_backtrace_transit_event_to_sinks(te, thread_id, thread_name); });
       }
     }
     else if (transit_event.macro_metadata->event() == MacroMetadata::Event::Flush)
@@ -907,6 +907,27 @@ private:
 
       // We defer notifying the caller until after this function completes.
     }
+  }
+
+  /**
+   * Dispatches one of the stored backtrace events. A sink that throws costs this one statement: the
+   * error is reported and the replay goes on with the next stored statement, as it does for
+   * statements that are not part of a backtrace. Otherwise the exception would end the replay before
+   * the storage is cleared and the next flush of the backtrace would write the statements that
+   * were already written once more
+   */
+  void _dispatch_backtrace_transit_event_to_sinks(TransitEvent const& transit_event,
+                                                  std::string_view const& thread_id,
+                                                  std::string_view const& thread_name)
+  {
+    QUILL_TRY { _dispatch_transit_event_to_sinks(transit_event, thread_id, thread_name); }
+#if !defined(QUILL_NO_EXCEPTIONS)
+    QUILL_CATCH(std::exception const& e) { _options.error_notifier(e.what()); }
+    QUILL_CATCH_ALL()
+    {
+      _options.error_notifier(std::string{"Caught unhandled exception."});
+    } // clang-format on
+#endif
   }
 
   /**
